@@ -113,7 +113,10 @@ def r1_retransmission(ctx, F):
                   'msgs_pending_ack with an unconditional send; filtering adaptors: %s)' %
                   [c.short.split('::')[-1] for c in filt])
     # --- who may mutate msgs_pending_ack
-    bodies = [x for x in F.bodies.values() if x.path.startswith(ORL) or x.path.startswith('<' + ORL)]
+    # (helpers a refactoring introduced are spliced into their callers and judged there)
+    spliced = set(F.unknown_functions)
+    bodies = [x for x in F.bodies.values() if (x.path.startswith(ORL) or x.path.startswith('<' + ORL)) and
+              x.path not in spliced]
     muts = []
     for x in bodies:
         for c in x.calls:
@@ -148,19 +151,73 @@ def r1_retransmission(ctx, F):
            'Send' in [l for (l, t) in sw.edges if isinstance(l, str)]]
     if not swc:
         raise AnchorMissing('process_output: match on Command')
-    sblocks = po.reach([e[1] for e in swc[0].edges_for('Send')])
+    # (the arm itself: up to the next pull of a command)
+    sblocks = po.reach([e[1] for e in swc[0].edges_for('Send')],
+                       cut_blocks=[c.bb for c in po.calls_to('Iterator::next') if po.in_cycle(c.bb)])
     snd = [c for c in po.calls if c.bb in sblocks and c.is_('Out::send')]
     ins = [c for c in po.calls if c.bb in sblocks and c.is_('HashMap::insert', 'HashableHashMap::insert')]
     from common import stores_to_field
     incs = [i for (i, st_) in stores_to_field(po, 'next_send_seq') if i in sblocks]
+    # the sequencer may be kept in a local while the commands are translated: read from the field before the loop,
+    # incremented per send, written back after the loop on every path (`cell` = (local, read block, store block))
+    def ssa_root(op):
+        # the variable or place an operand is a copy of (through single-assignment temporaries)
+        for _ in range(8):
+            if op.get('k') not in ('copy', 'move'):
+                return ('other', repr(op))
+            pl = op['place']
+            if pl['p']:
+                return ('place', repr(po.val(op)))
+            ds_ = po.defs.get(pl['l'], [])
+            if len(ds_) != 1 or ds_[0][1] == 'call':
+                return ('local', pl['l'])
+            rv_ = ds_[0][2]['rv']
+            if rv_['k'] == 'use' and rv_['op'].get('k') in ('copy', 'move') and not rv_['op']['place']['p']:
+                op = rv_['op']
+                continue
+            return ('local', pl['l'])       # assigned once, from a read of a place / a computation
+        return ('other', '')
+    cell = None
+    if not incs:
+        heads0 = [c for c in po.calls_to('Iterator::next') if po.in_cycle(c.bb)]
+        for (i, st_) in stores_to_field(po, 'next_send_seq'):
+            rv_ = st_['rv']
+            if rv_['k'] != 'use' or rv_['op'].get('k') not in ('copy', 'move') or rv_['op']['place']['p']:
+                continue
+            root_ = ssa_root(rv_['op'])
+            if root_[0] != 'local':
+                continue
+            L = root_[1]
+            ds_ = [d for d in po.defs.get(L, []) if d[1] != 'call' and not d[2]['lhs']['p']]
+            init = [d for d in ds_ if d[2]['rv']['k'] == 'use' and
+                    po.val(d[2]['rv']['op']).fields()[-1:] == ('.next_send_seq',) and d[0] not in sblocks]
+            steps = [d for d in ds_ if d[0] in sblocks]
+            if len(init) == 1 and steps and len(init) + len(steps) == len(ds_) and heads0 and \
+                    all(po.dominates(init[0][0], h.bb) for h in heads0):
+                # every way out of the loop passes the write-back
+                nones = [e[1] for h in heads0 for e in po.branch(h, 'None')]
+                r_ = po.reach(nones, cut_blocks=[i])
+                if nones and not any(x in r_ for x in po.returns):
+                    cell = (L, init[0][0], i)
+                    incs = sorted(set(d[0] for d in steps))
+
     ok = len(snd) == 1 and len(ins) == 1 and len(incs) == 1
     if ok:
         wire = po.val(snd[0].args[2])
         wseq = noref(wire.key[3][0]) if wire.kind == 'agg' and wire.key[2] == 'Deliver' else None
         kseq = noref(po.val(ins[0].args[1]))
-        ok = wseq is not None and wseq == kseq and wseq.fields()[-1:] == ('.next_send_seq',)
-        # no increment between the two reads: the increment block is after both
-        ok = ok and po.dominates(snd[0].bb, incs[0]) and po.dominates(ins[0].bb, incs[0])
+        is_seq = wseq is not None and (wseq.fields()[-1:] == ('.next_send_seq',) or
+                                       (cell is not None and wseq == V('local', cell[0])))
+        ok = wseq is not None and wseq == kseq and is_seq
+        # the same value: both are copies of one variable that is assigned once (`let seq = state.next_send_seq`),
+        # or two reads with no increment between them - the increment block is after both
+        wire_ops = [st_['rv']['ops'][0] for (i, si, st_) in po.assigns(
+            lambda st_: st_['rv']['k'] == 'agg' and st_['rv'].get('variant') == 'Deliver' and st_['rv']['ops'])
+            if i in sblocks]
+        roots = set(ssa_root(o_) for o_ in wire_ops) | {ssa_root(ins[0].args[1])}
+        one_var = len(wire_ops) == 1 and len(roots) == 1 and next(iter(roots))[0] == 'local' and \
+            len(po.defs.get(next(iter(roots))[1], [])) == 1
+        ok = ok and (one_var or (po.dominates(snd[0].bb, incs[0]) and po.dominates(ins[0].bb, incs[0])))
         # destination consistency
         dst_w = noref(po.val(snd[0].args[1]))
         pend = po.val(ins[0].args[2])
@@ -189,9 +246,11 @@ def r1_retransmission(ctx, F):
     # sees it acknowledged)
     elsewhere = []
     for x in F.bodies.values():
-        if 'ordered_reliable_link' not in x.path:
+        if 'ordered_reliable_link' not in x.path or x.path in spliced:
             continue
         for (i, st_) in stores_to_field(x, 'next_send_seq'):
+            if x is po and cell is not None and i == cell[2]:
+                continue        # the write-back of the local the sequencer was kept in during the loop
             if not (x is po and i in incs):
                 elsewhere.append('%s@%s' % (x.path.split('::')[-1], st_.get('span', i)))
     ctx.check(len(incs) == 1 and not elsewhere, rule, 'sequencer-only-grows', po,
@@ -200,7 +259,8 @@ def r1_retransmission(ctx, F):
                   'out twice, and the receiver acknowledges the second message as a duplicate without handing it over'
                   % sorted(set(elsewhere)))
     if len(incs) == 1:
-        r = po.reach([snd[0].target] if snd else [], cut_blocks=incs)
+        # (anywhere in the Send arm: a helper may return the sequencer it has just advanced past)
+        r = po.reach(send_edges if snd else [], cut_blocks=incs)
         loop_heads = [c.bb for c in po.calls_to('Iterator::next')]
         ctx.check(not any(h in r for h in loop_heads) and not any(x in r for x in po.returns), rule,
                   'sequencer-incremented-per-send', po,
